@@ -1,5 +1,6 @@
 import PewDriver.Util
 import PewModel.FastParse
+import Std.Data.HashMap
 open Lean
 namespace PewDriver.C17
 open PewDriver Pew.FastParse
@@ -69,16 +70,47 @@ def hexBytes (s : String) : R (List UInt8) := do
     out := out.push (UInt8.ofNat (16 * x + y))
   pure out.toList
 
+/-- `binOfBytes ibd` with the reads of the models at hand computed once (`readOf` is evaluated for every array of
+every spectrum of `ms` and remembered under the arguments it depends on; anything else falls through to `readOf`) -/
+abbrev ReadKey := String × String × String × String        -- group id, declared type, offset text, length text
+
+def readKey (g : PGroup) (s : SpecInfo) : Option ReadKey :=
+  (arrayOf s g.id).map (fun (o, l) => (g.id, g.dtype, o, l))
+
+def readTable (ibd : List UInt8) (ms : List Model) : Std.HashMap ReadKey (Option (List Rat)) :=
+  ms.foldl (fun t m => m.spectra.foldl (fun t s => [m.mz, m.inten].foldl (fun t g =>
+    match readKey g s with
+    | some k => if t.contains k then t else t.insert k (readOf ibd g s)
+    | none => t) t) t) {}
+
+def readMemo (ibd : List UInt8) (tbl : Std.HashMap ReadKey (Option (List Rat))) (g : PGroup) (s : SpecInfo) : Option (List Rat) :=
+  match (readKey g s).bind (fun k => tbl.get? k) with
+  | some r => r
+  | none => readOf ibd g s
+
+def binMemo (ibd : List UInt8) (tbl : Std.HashMap ReadKey (Option (List Rat))) : Bin :=
+  { binOfBytes ibd with read := fun g s => (readMemo ibd tbl g s).getD [] }
+
+/-- `convertible` with the remembered reads -/
+def convertibleMemo (ibd : List UInt8) (tbl : Std.HashMap ReadKey (Option (List Rat))) (m : Model) : Bool :=
+  (match m.scan.size with
+    | some (x, y) => (pyNat x).isSome && (pyNat y).isSome
+    | none => true) &&
+  m.spectra.all (fun s =>
+    (pyNat s.x).isSome && (pyNat s.y).isSome &&
+    (match s.tic with | some t => (pyFloat t).isSome | none => true) &&
+    (readMemo ibd tbl m.mz s).isSome && (readMemo ibd tbl m.inten s).isSome)
+
 /-- every text the extraction converts is one the model converts (`convertible`), every spectrum has both
-arrays with strictly increasing non-empty m/z axes of the intensities' length, 1-based positions inside the
+arrays with strictly increasing (possibly empty) m/z axes of the intensities' length, 1-based positions inside the
 image: the class on which `Pew.Imzml`'s placement and window sums are the NumPy ones -/
-def imagesHyp (ibd : List UInt8) (m : Model) : Bool :=
-  let B := binOfBytes ibd
+def imagesHyp (ibd : List UInt8) (tbl : Std.HashMap ReadKey (Option (List Rat))) (m : Model) : Bool :=
+  let B := binMemo ibd tbl
   let size := imageSizeOf B m
-  convertible ibd m &&
+  convertibleMemo ibd tbl m &&
   m.spectra.all (fun s =>
     (let t := toSpectrum B m s
-     Pew.Imzml.incrB t.mz && t.mz.length == t.it.length && !t.mz.isEmpty &&
+     Pew.Imzml.incrB t.mz && t.mz.length == t.it.length &&
      decide (1 ≤ t.x) && decide (1 ≤ t.y) && decide (t.x ≤ size.1) && decide (t.y ≤ size.2)))
 
 def jImages (B : Bin) (m : Model) (masses : List Rat) (w : Pew.Imzml.Width) : Json :=
@@ -88,8 +120,9 @@ def jImages (B : Bin) (m : Model) (masses : List Rat) (w : Pew.Imzml.Width) : Js
         ("mass", jList (jList (jOpt (jList jRat))) (massImageOf B m masses w))]
 
 /-- the images of a model with one binary, `null` when the exact comparison does not apply -/
-def imagesOf (ibd : List UInt8) (masses : List Rat) (w : Pew.Imzml.Width) (m : Model) : Json :=
-  if imagesHyp ibd m then jImages (binOfBytes ibd) m masses w else Json.null
+def imagesOf (ibd : List UInt8) (tbl : Std.HashMap ReadKey (Option (List Rat))) (masses : List Rat) (w : Pew.Imzml.Width)
+    (m : Model) : Json :=
+  if imagesHyp ibd tbl m then jImages (binMemo ibd tbl) m masses w else Json.null
 
 structure BinReq where
   ibd : List UInt8
@@ -210,8 +243,9 @@ def handle (op : String) (req : Json) : R Json := do
       | .null => pure Json.null
       | b => do
         let br ← parseBin b
+        let tbl := readTable br.ibd (xml.toList ++ fastFree.toOption.toList)
         let one (m : Option Model) : Json := match m with
-          | some m => imagesOf br.ibd br.masses (.mz br.width) m
+          | some m => imagesOf br.ibd tbl br.masses (.mz br.width) m
           | none => Json.null
         pure (jObj [("xml", one xml), ("fast", one fastFree.toOption)])
     pure (jObj [("callback", jCallbackRun q free c),
@@ -250,9 +284,13 @@ def handle (op : String) (req : Json) : R Json := do
       | k => throw s!"bad op {k}"
     let sess := runOps q.d q.ls ops
     let xml := xmlView (xmlDoc q.d)
-    let imgs (o : Obj) : Json := match bins[o.bin]? with
-      | some (some br) => imagesOf br.ibd br.masses (.mz br.width) o.model
-      | _ => Json.null
+    let models := xml.toList ++ sess.results.filterMap (fun r => match r with | .ok o => some o.model | _ => none)
+    let tbls := bins.map (fun b => match b with
+      | some br => readTable br.ibd models
+      | none => {})
+    let imgs (o : Obj) : Json := match bins[o.bin]?, tbls[o.bin]? with
+      | some (some br), some tbl => imagesOf br.ibd tbl br.masses (.mz br.width) o.model
+      | _, _ => Json.null
     let jRes : Result → Json
       | .ok o => jObj [("ok", jModel o.model), ("bin", jNat o.bin), ("images", imgs o)]
       | .fastErr e => jObj [("raises", jStr (errName e))]
